@@ -208,7 +208,7 @@ func checkUnregister(c *core.Ctx, r *core.Report, a *locks.Analysis) {
 				return false
 			}
 			why := ""
-			if fn.Name() == "DeleteVirtualTableSegStore" {
+			if c.BaseName(fn.Object()) == "DeleteVirtualTableSegStore" {
 				why = "deletion of the whole index: its open stores are dropped on purpose"
 			}
 			for _, call := range callsTo(fn, unused) {
